@@ -8,6 +8,12 @@
     aggsig signatures and handed to the real Transaction::validate / Block::validate.
     Oracle: real Ok => spec Valid (the property). Conversely spec Valid and non-degenerate => real Ok
     is required as anti-vacuity (a tool error, never a verdict).
+    Every case also runs under further realisations the verdict must not depend on (MC_TxBalance!Realisations):
+    inputs as Inputs::FeaturesAndCommit (with the coinbase features an input claims: corruption
+    input_added_unaccounted), and transactions under Weighting::AsLimitedTransaction(70) (weight rule binding: bound 46)
+    and Weighting::NoLimit (no weight rule; every other rule still applies: RestValid => NoValueCreated).
+    Kernels carry a fee_shift (fs): setting it leaves the verdict alone (fee_shift_set), it hides no unpaid fee
+    (fee_shift_hides_unpaid_fee) and its bits are no fee (fee_shift_bits_paid_as_fee / _claimed_by_coinbase).
 (B) Batch layer (spec/TxBalanceBatch.tla): TLC-generated batch plans (size, forged positions) over chunk / batch
     boundaries are executed on the real TxKernel::batch_sig_verify, Output::batch_verify_proofs and on
     Transaction::validate of big transactions (mainnet weights, forged kernel ground to the wanted sorted index).
@@ -15,7 +21,9 @@
     layouts, every single corruption class at every kernel / unspent output; large states around the batch
     boundaries of the validator's two walks) are realised as real chain directories - honest prefix through
     Chain::process_block, the forged block and what follows written straight into the txhashset - and judged by
-    the real Chain::validate(true|false).
+    the real Chain::validate(true|false). Before it is written past the pipeline the forged block is offered to the real
+    Chain::process_block under Options NONE, SYNC and MINE (+SKIP_POW) on top of the honest prefix: the specification
+    (PipelineAccepts = BlockBalanced, whatever the options) says it is refused under each.
     Oracle of (B) and (S): real accept => the spec accepts; the converse is anti-vacuity (tool error).
 The history clause of C01 (full-state sums after any accepted history) is decided by the Chain engine.
 """
@@ -42,29 +50,101 @@ def total_fee(case):
     return sum(nanogrin(k["fee"]) for k in case["body"]["kerns"] if k["kind"] != "cb")
 
 
-def signature(case):
-    ctx, exp = case["ctx"], case["expect"]
+def signature(case, rule=None):
+    """rule: the first failing rule under the realisation that was accepted (default: under the base run)"""
+    ctx, exp = case["ctx"], dict(case["expect"])
+    if rule is not None:
+        exp["rule"] = rule
     if ctx["as"] == "block" and case["applied"] == ["fees_paid_to_plain_output"] and exp["rule"] == "verify_coinbase":
         # the coinbase claims the bare subsidy, a plain output collects the fees
         return "txbal:block:accepted:fees_not_claimed_by_coinbase:total_fee_%s_single_kernel_limit" % (
             "over" if total_fee(case) > FEE_MASK else "within")
-    if ctx["as"] == "block" and ctx["total"] == 0 and ctx["prev"] != 0 and exp["rule"] == "kernel_sums":
+    if ctx["as"] == "block" and ctx["total"] == 0 and ctx["prev"] != 0 and exp["rule"] == "kernel_sums" \
+            and set(case["applied"]) <= {"offset_plus", "offset_minus"}:
         # the block's own offset (total - prev) was not applied
         return "txbal:block:accepted:total_offset_zero_prev_nonzero"
     cls = "+".join(case["applied"]) if case["applied"] else "base"
     return "txbal:%s:accepted:%s:rule=%s" % (ctx["as"], cls, exp["rule"])
 
 
-def judge(case, res):
-    """-> ('ok'|'violation'|'converse'|'skip', text)"""
+LIMITED_MAX = 70      # TxBalance!LimitedMax: the m of Weighting::AsLimitedTransaction(m)
+
+
+def pick_runs(case):
+    """The realisations (representation of the inputs x weighting, TxBalance!InputVariants / TxWeightings) this case is
+    run under: the base run, those the specification marks `must`, and one of the others, rotating with the case."""
+    runs = case.get("runs")
+    if not runs:
+        return None
+    sel = [k for k, r in enumerate(runs) if r["must"]]
+    rest = [k for k, r in enumerate(runs) if not r["must"]]
+    if rest:
+        # every second transaction case / every fourth block case gets one, cycling through the remaining pairs
+        period = 2 if case["ctx"]["as"] == "tx" else 4
+        slot = (case["id"] + vlib.seed()) % (len(rest) * period)
+        if slot % period == 0:
+            sel.append(rest[slot // period])
+    return sel
+
+
+def to_harness_case(case):
+    if "run_ix" not in case:            # a replayed case keeps the realisations it was recorded with
+        case["run_ix"] = pick_runs(case)
+    if case["run_ix"] is None:
+        return case
+    h = dict(case)
+    h.pop("runs", None)
+    h["run_list"] = [{"iv": case["runs"][k]["iv"], "w": case["runs"][k]["w"]} for k in case["run_ix"]]
+    h["limited_max"] = LIMITED_MAX
+    return h
+
+
+def run_results(case, res):
+    """[(run expectation, real result)] of the realisations executed; the base run alone for older replay files"""
+    if case.get("run_ix") is None or "runs" not in res:
+        exp = case["expect"]
+        return [({"iv": "co", "w": "tx" if case["ctx"]["as"] == "tx" else "block", "valid": exp["valid"], "rule": exp["rule"]}, res)]
+    return [(case["runs"][k], rr) for k, rr in zip(case["run_ix"], res["runs"])]
+
+
+def run_suffix(run):
+    """signature suffix naming a realisation other than the base one"""
+    s = ""
+    if run["iv"] != "co":
+        s += ":inputs=" + run["iv"]
+    if run["w"] not in ("tx", "block"):
+        s += ":weighting=" + run["w"]
+    return s
+
+
+def judge_run(case, run, rr):
+    """-> ('ok'|'violation'|'converse'|'weight_only', text) for one realisation"""
     exp = case["expect"]
-    if res["res"] == "ok" and not exp["valid"]:
-        return "violation", "real %s::validate returned Ok for a body the rules refuse at '%s' (corruption %s): %s" % (
-            "Transaction" if case["ctx"]["as"] == "tx" else "Block", exp["rule"], case["applied"] or "none",
-            json.dumps({"body": case["body"], "ctx": case["ctx"]}))
-    if exp["valid"] and not exp["degenerate"] and res["res"] != "ok":
-        return "converse", "spec-valid non-degenerate body refused (%s %s)" % (res["res"], res.get("err"))
+    what = "%s::validate(%s, inputs as %s)" % ("Transaction" if case["ctx"]["as"] == "tx" else "Block",
+                                              {"tx": "AsTransaction", "limited": "AsLimitedTransaction(%d)" % LIMITED_MAX,
+                                               "nolimit": "NoLimit", "block": "AsBlock"}[run["w"]],
+                                              {"co": "CommitOnly", "fc": "FeaturesAndCommit"}[run["iv"]])
+    if rr["res"] == "ok" and not run["valid"]:
+        if exp.get("rest_valid"):
+            # only the weight rule refuses it: not a matter of conservation (anti-vacuity side, a tool error)
+            return "weight_only", "real %s returned Ok for a body only the weight rule refuses" % what
+        return "violation", "real %s returned Ok for a body the rules refuse at '%s' (corruption %s): %s" % (
+            what, run["rule"], case["applied"] or "none", json.dumps({"body": case["body"], "ctx": case["ctx"]}))
+    if run["valid"] and not exp["degenerate"] and rr["res"] != "ok":
+        return "converse", "spec-valid non-degenerate body refused by %s (%s %s)" % (what, rr["res"], rr.get("err"))
     return "ok", ""
+
+
+def judge(case, res):
+    """-> ('ok'|'violation'|'converse', text, signature suffix, first failing rule): the first realisation that is not ok"""
+    worst = ("ok", "", "", None)
+    for run, rr in run_results(case, res):
+        verdict, text = judge_run(case, run, rr)
+        if verdict == "violation":
+            return verdict, text, run_suffix(run), run["rule"]
+        if verdict in ("converse", "weight_only") and worst[0] == "ok":
+            worst = ("converse", text, run_suffix(run), run["rule"])
+    return worst
 
 
 def emit_cases(reps, pairs):
@@ -93,10 +173,10 @@ def run(tier, replay):
             rep.coverage = {"states": 1, "transitions": 1, "traces_validated_against_impl": 1,
                             "samples": [{"signature": obj["signature"], "real": sres[0]}]}
             return rep.finish()
-        res, _ = _txbal.run_sharded("validate", [case], wd, "replay", shards=1)
-        verdict, text = judge(case, res[0])
+        res, _ = _txbal.run_sharded("validate", [to_harness_case(case)], wd, "replay", shards=1)
+        verdict, text, sfx, rule = judge(case, res[0])
         if verdict == "violation":
-            rep.violation(signature(case), case, text)
+            rep.violation(signature(case, rule) + sfx, case, text)
         rep.coverage = {"states": 1, "transitions": 1, "traces_validated_against_impl": 1,
                         "samples": [{"signature": obj["signature"], "real": res[0]}]}
         return rep.finish()
@@ -152,7 +232,7 @@ def run(tier, replay):
     cases = emit_cases(10 if thorough else 2, 3 if thorough else 1)
     if len(cases) < 500:
         raise ToolError("too few TxBalance cases emitted (%d)" % len(cases))
-    res, infos = _txbal.run_sharded("validate", cases, wd, "cases", shards=4)
+    res, infos = _txbal.run_sharded("validate", [to_harness_case(c) for c in cases], wd, "cases", shards=4)
     counts = collections.Counter()
     by_class = collections.Counter()
     by_rule = collections.Counter()
@@ -162,7 +242,23 @@ def run(tier, replay):
     for c in cases:
         r = res[c["id"]]
         exp = c["expect"]
-        verdict, text = judge(c, r)
+        verdict, text, sfx, rule = judge(c, r)
+        for run, rr in run_results(c, r):
+            counts["runs"] += 1
+            counts["runs:inputs=%s:weighting=%s" % (run["iv"], run["w"])] += 1
+            if run["valid"] and rr["res"] == "ok":
+                counts["runs_accepted:inputs=%s:weighting=%s" % (run["iv"], run["w"])] += 1
+            if run["w"] == "limited" and run["rule"] == "weight":
+                counts["runs_limited_weight_rule_binding"] += 1
+                if exp.get("rest_valid") and rr["res"] != "ok":
+                    counts["runs_limited_refused_for_weight_alone"] += 1
+            if run["w"] == "limited" and run["valid"] and c["grp"]["ni"] + 21 * c["grp"]["no"] + 3 * c["grp"]["nk"] == LIMITED_MAX - 24 \
+                    and not c["applied"] and rr["res"] == "ok":
+                counts["runs_limited_accepted_at_the_bound"] += 1
+            if run["w"] == "nolimit" and not run["valid"] and rr["res"] != "ok":
+                counts["runs_nolimit_refused:rule=" + run["rule"]] += 1
+            if run["iv"] == "fc" and any("f" in i for i in c["body"]["ins"]):
+                counts["runs_fc_with_claimed_coinbase_input"] += 1
         cls = "+".join(c["applied"]) if c["applied"] else "base"
         for a in (c["applied"] or ["base"]):
             by_class[a] += 1
@@ -194,9 +290,10 @@ def run(tier, replay):
                 if c["applied"] == ["fees_paid_to_plain_output"] and r["res"] != "ok":
                     counts["block_fees_to_plain_output_refused:kernels_at_max=%d" % nmax] += 1
         if verdict == "violation":
-            sig_seen[signature(c)] += 1
-            if sig_seen[signature(c)] <= 3:        # a few replays per signature are enough
-                rep.violation(signature(c), c, text)
+            sig = signature(c, rule) + sfx
+            sig_seen[sig] += 1
+            if sig_seen[sig] <= 3:        # a few replays per signature are enough
+                rep.violation(sig, c, text)
         elif verdict == "converse":
             converse.append((c, r, text))
 
@@ -248,8 +345,33 @@ def run(tier, replay):
         flipped = json.loads(json.dumps(probe))
         flipped["expect"]["valid"] = False
         flipped["expect"]["rule"] = "selftest"
+        for run in flipped.get("runs", []):
+            run["valid"] = False
+        flipped["expect"]["rest_valid"] = False
         if judge(flipped, res[probe["id"]])[0] != "violation":
             raise ToolError("selftest: flipped expectation not flagged")
+        # ... and so must a flipped expectation of a realisation other than the base run
+        pr2 = next((c for c in cases if c["expect"]["valid"] and not c["expect"]["degenerate"] and len(c.get("run_ix") or []) > 1
+                    and all(rr["res"] == "ok" for rr in res[c["id"]]["runs"])), None)
+        if pr2 is None:
+            raise ToolError("no spec-valid body was accepted under a second realisation: binding is vacuous")
+        fl2 = json.loads(json.dumps(pr2))
+        fl2["runs"][fl2["run_ix"][-1]]["valid"] = False
+        fl2["expect"]["rest_valid"] = False
+        v2 = judge(fl2, res[pr2["id"]])
+        if v2[0] != "violation" or not v2[2]:
+            raise ToolError("selftest: flipped expectation of a non-base realisation not flagged: %s" % (v2,))
+    # every realisation dimension was exercised, the weight rule was binding under AsLimitedTransaction (refusal for weight
+    # alone, acceptance exactly at the bound), NoLimit refused bodies for every other rule, claimed coinbase inputs ran as FeaturesAndCommit
+    if not rep.violations and not converse:
+        need = ["runs:inputs=%s:weighting=%s" % (iv, w) for iv in ("co", "fc") for w in ("tx", "limited", "nolimit", "block")]
+        need += ["runs_accepted:inputs=fc:weighting=nolimit", "runs_accepted:inputs=fc:weighting=block", "runs_accepted:inputs=co:weighting=limited",
+                 "runs_limited_refused_for_weight_alone", "runs_limited_accepted_at_the_bound", "runs_fc_with_claimed_coinbase_input"]
+        need += ["runs_nolimit_refused:rule=" + r for r in ("kernel_sums", "range_proofs", "signatures", "cut_through", "sorted_unique",
+                                                           "features_outputs", "features_kernels")]
+        for key in need:
+            if counts[key] == 0:
+                raise ToolError("realisation dimension vacuous: %s = 0" % key)
     # the fee-magnitude dimension was exercised where it matters: totals above the single-kernel limit
     if not rep.violations and not converse:
         for key in ("block_total_fee_over_single_kernel_limit_honest_accepted:kernels_at_max=2",
@@ -306,7 +428,12 @@ def run(tier, replay):
         "40000/3 kernels of at most 2^40-1 nanogrin: < 2^54)",
         "blinding factors of generated bases follow cyclic patterns (stratified sample of r in 1..3); values, fees, offsets, "
         "kernel kinds and corruption positions are exhaustive within the stated bounds",
-        "weight rule transcribed but never binding within the bounds (<= 96 weight units)",
+        "weight rule: never binding under AsTransaction / AsBlock within the bounds (<= 96 weight units); binding under "
+        "AsLimitedTransaction(70) (bound 46); a body refused by the weight rule alone and accepted by the code is a tool error, "
+        "not a C01 verdict",
+        "every case runs as (CommitOnly, AsTransaction|AsBlock), under every realisation the specification marks `must` (claimed "
+        "coinbase features need FeaturesAndCommit) and every second transaction case / every fourth block case under ONE of the remaining "
+        "(inputs representation x weighting) pairs, rotating with the case number and VERIF_SEED; fee_shift values 1 and 15 only",
         "history clause of C01 (stored block sums after reorgs) is decided by the Chain engine, not here",
         "batch plans: items are taken cyclically from a pool of 16 valid kernels / 6 valid outputs; a forged item is a valid "
         "one carrying its neighbour's signature / proof; Output::batch_verify_proofs is never called with an empty batch "
